@@ -468,9 +468,11 @@ namespace bluetoe {
 
                 long_term_key_ = long_term_key;
 
-                pairing_status_ = state_data_.lesc_state.algorithm == details::lesc_pairing_algorithm::just_works
-                    ? device_pairing_status::unauthenticated_key
-                    : device_pairing_status::authenticated_key;
+                // Numeric comparison is the only LESC association model implemented, that authenticates the
+                // peer. If passkey entry or OOB was selected, just the "just works" exchange was done.
+                pairing_status_ = state_data_.lesc_state.algorithm == details::lesc_pairing_algorithm::numeric_comparison
+                    ? device_pairing_status::authenticated_key
+                    : device_pairing_status::unauthenticated_key;
             }
 
             const details::uint128_t& c1_p1() const
